@@ -209,6 +209,12 @@ impl BufFile {
             r is Ok ==> final(self).flushed() == final(self).content().len(),
     { use std::io::Write; self.inner.flush() }
 
+    /// `BufWriter::buffer`: the bytes not yet handed to the OS
+    #[verifier::external_body]
+    pub fn buffer(&self) -> (r: &[u8])
+        ensures r@.len() == self.content().len() - self.flushed(),
+    { self.inner.buffer() }
+
     /// `self.get_ref().sync_data()` (fdatasync): what the OS has been handed is on stable storage when it returns Ok
     #[verifier::external_body]
     pub fn sync_data(&mut self) -> (r: std::io::Result<()>)
